@@ -3,7 +3,7 @@
 From Coq Require Import String List NArith Bool.
 From J5V.lib Require Import Outcome Strcase.
 From J5V.model Require Import J5sAst Desc J5sWalk J5sLink J5sConvert J5sContract J5sValid J5sEdit J5sCorr.
-From J5V.proofs Require Import J5sProofs J5sContractProofs J5sEditProofs J5sExtProofs J5sWitnessProofs.
+From J5V.proofs Require Import J5sProofs J5sContractProofs J5sEditProofs J5sExtProofs J5sPkgExtProofs J5sWitnessProofs.
 Import ListNotations.
 Local Open Scope N_scope.
 
@@ -78,13 +78,30 @@ Proof.
 Qed.
 Print Assumptions C13_environment_only_grows.
 
+(* whole packages, before the link step: in a bundle where one source file (the only one with
+   its file name) was extended by any sequence of append edits and exported names stay distinct,
+   every package converts to descriptors into which the old descriptors embed - the untouched
+   files of the package included, and in the same file order *)
+Theorem C13_package_append_preserves : forall snake camel screaming bd f f' pkg D D',
+  file_src_ext f f' ->
+  (forall x, In x bd -> bfile_path x = j5s_path f -> x = BJ f) ->
+  (forall p l, pkg_exports camel (map (replace_file f') bd) p = Some l -> J5sValid.distinct (map tr_name l) = true) ->
+  convert_package snake camel screaming bd pkg = Ok D ->
+  convert_package snake camel screaming (map (replace_file f') bd) pkg = Ok D' ->
+  files_ext D D'.
+Proof.
+  intros snake camel screaming bd f f' pkg D D' Hext Honly Hd.
+  exact (convert_package_ext snake camel screaming bd f f' Hext Honly pkg D D' Hd).
+Qed.
+Print Assumptions C13_package_append_preserves.
+
 (* the property at full strength: for every valid package and every sequence of append edits
    (fold_left over the list) that leaves it valid, the edited package compiles and every
    previously generated file, message, field, enum value, service and method is unchanged
    (embedded: J5sEdit.files_ext).  Proved so far: existence (the edited package compiles:
-   C02_valid_packages_compile) and the embedding per source file before the link step
-   (C13_append_edits_preserve); the composition through the link step and across the files of
-   a package is not yet a theorem (the link step only qualifies type names: J5sLink.v). *)
+   C02_valid_packages_compile) and the embedding for whole packages before the link step
+   (C13_package_append_preserves); the composition through the link step is not yet a theorem
+   (the link step only qualifies type names: J5sLink.v). *)
 Definition C13_full_statement : Prop :=
   forall bd es pkg D,
     valid bd = true -> valid (apply_edits bd es) = true ->
